@@ -41,6 +41,8 @@ val add : nat -> nat -> nat
 
 val mul : nat -> nat -> nat
 
+val sub : nat -> nat -> nat
+
 val eqb : nat -> nat -> bool
 
 val max : nat -> nat -> nat
@@ -58,11 +60,34 @@ type n =
 | N0
 | Npos of positive
 
+module Nat :
+ sig
+  val sub : nat -> nat -> nat
+
+  val leb : nat -> nat -> bool
+
+  val divmod : nat -> nat -> nat -> nat -> nat * nat
+
+  val modulo : nat -> nat -> nat
+ end
+
 module Pos :
  sig
   val succ : positive -> positive
 
+  val add : positive -> positive -> positive
+
+  val add_carry : positive -> positive -> positive
+
+  val mul : positive -> positive -> positive
+
   val eqb : positive -> positive -> bool
+
+  val iter_op : ('a1 -> 'a1 -> 'a1) -> positive -> 'a1 -> 'a1
+
+  val to_nat : positive -> nat
+
+  val of_succ_nat : nat -> positive
 
   val to_little_uint : positive -> uint
 
@@ -75,12 +100,38 @@ module N :
  sig
   val succ : n -> n
 
+  val add : n -> n -> n
+
+  val mul : n -> n -> n
+
   val eqb : n -> n -> bool
+
+  val to_nat : n -> nat
+
+  val of_nat : nat -> n
 
   val to_uint : n -> uint
 
   val eq_dec : n -> n -> bool
  end
+
+val zero : char
+
+val one : char
+
+val shift : bool -> char -> char
+
+val ascii_of_pos : positive -> char
+
+val ascii_of_N : n -> char
+
+val ascii_of_nat : nat -> char
+
+val n_of_digits : bool list -> n
+
+val n_of_ascii : char -> n
+
+val nat_of_ascii : char -> nat
 
 val map : ('a1 -> 'a2) -> 'a1 list -> 'a2 list
 
@@ -105,6 +156,12 @@ val string_dec : char list -> char list -> bool
 val eqb1 : char list -> char list -> bool
 
 val append : char list -> char list -> char list
+
+val length0 : char list -> nat
+
+val get : nat -> char list -> char option
+
+val substring : nat -> nat -> char list -> char list
 
 val prefix : char list -> char list -> bool
 
@@ -329,17 +386,49 @@ val gen_ADD_ASSIGN_TAG : char list
 
 val gen_TPL_TAG : char list
 
+val gen_lit_callers : char list list
+
 val gen_PROTOTYPE : char list
 
 val gen_CALL : char list
 
 val gen_APPLY : char list
 
+val gen_prologue_template : char list
+
+val gen_prologue_entry_format : char list
+
+val gen_prologue_join : char list
+
+val gen_prologue_placeholder : char list
+
 val gen_cancel_format : char list
 
 val gen_cancel_unknown : char list
 
 val gen_cancel_reason : char list
+
+val gen_default_chain : bool
+
+val gen_default_comments : bool
+
+val gen_default_literals : bool
+
+val gen_default_prefix_len : n
+
+val gen_default_operator : bool
+
+val gen_default_awc : bool
+
+val gen_rnd_alphabet : char list
+
+val gen_verbosity_table : (char list * char list) list
+
+val gen_verbosity_fallback : char list
+
+val gen_verbosity_absent : char list
+
+val gen_verbosity_uppercases : bool
 
 type csi_method = { m_src : char list; m_dst : char list; m_operator : 
                     bool; m_awc : bool }
@@ -374,6 +463,50 @@ val csi_get : config -> char list -> csi_method option
 val allows_literal_callers : config -> char list -> bool
 
 val var_prefix : config -> char list
+
+type raw_method = { rm_src : char list; rm_dst : char list option;
+                    rm_operator : bool option; rm_awc : bool option }
+
+type raw_config = { r_chain : bool option; r_comments : bool option;
+                    r_prefix : char list option;
+                    r_methods_opt : raw_method list option;
+                    r_verbosity : char list option; r_literals : bool option }
+
+val r_methods : raw_config -> raw_method list
+
+val opt_default : 'a1 -> 'a1 option -> 'a1
+
+val method_of_raw : raw_method -> csi_method
+
+val nth_char : char list -> nat -> char
+
+val rnd_chars : (nat -> nat) -> char list -> nat -> nat -> char list
+
+val rnd_string : (nat -> nat) -> nat -> char list
+
+val upper_ascii : char -> char
+
+val upper : char list -> char list
+
+val verbosity_of_name : char list -> verbosity
+
+val assoc_string :
+  char list -> (char list * char list) list -> char list option
+
+val parse_verbosity : char list option -> verbosity
+
+val join : char list -> char list list -> char list
+
+val replace_first : char list -> char list -> char list -> char list
+
+val subst1 : char list -> char list -> char list
+
+val prologue_text : csi_method list -> char list
+
+val to_config_with :
+  (char list -> node list) -> (nat -> nat) -> raw_config -> config
+
+val to_config : (nat -> nat) -> raw_config -> config
 
 module NilEmpty :
  sig
@@ -589,6 +722,40 @@ val tpl_instrumentable : node -> bool
 
 val callee_is_expr : node -> bool
 
+val is_op : (node -> char list option) -> char list -> node -> bool
+
+type opclass =
+| OBlock
+| OIdent
+| OBin
+| OAssign
+| OTpl
+| OCall
+| OOptChain
+| OUnary
+| OArrow
+| OOther
+
+val classify : node -> opclass
+
+val default_visit_with :
+  (node -> ostate -> (node * ostate) option) -> node -> ostate ->
+  (node * ostate) option
+
+val struct_level_with :
+  config -> (node -> ostate -> (node * ostate) option) -> node -> ostate ->
+  (node * ostate) option
+
+val bin_step : config -> node -> ostate -> node * ostate
+
+val assign_step : config -> node -> ostate -> node * ostate
+
+val tpl_step : config -> node -> ostate -> node * ostate
+
+val call_step : config -> node -> ostate -> node * ostate
+
+val finish : bool -> (node * ostate) -> (node * ostate) option
+
 val op_visit :
   config -> nat -> bool -> node -> ostate -> (node * ostate) option
 
@@ -741,6 +908,14 @@ val lower : bool -> node -> node
 val erase_ok : char list -> node list -> bool -> bool -> node -> node -> bool
 
 val first_diff_nospan : node -> node -> nat list option
+
+val spine_has_optional : node -> bool
+
+val norm_post : node -> node
+
+val norm_print : node -> node
+
+val roundtrip_ok : node -> node -> bool
 
 type site_cfg = { sc_plus : bool; sc_tpl : bool; sc_methods : char list list;
                   sc_lit_callers : char list list }
